@@ -249,7 +249,7 @@ func (g *specGen) componentSchemas() J {
 	return out
 }
 
-var mediaPool = []string{"application/json", "application/json", "application/json", "application/vnd.api+json", "application/x-www-form-urlencoded", "text/plain", "multipart/form-data", "application/octet-stream", "application/xml"}
+var mediaPool = []string{"application/json", "application/json", "application/json", "application/vnd.api+json", "application/x-www-form-urlencoded", "text/plain", "multipart/form-data", "application/octet-stream", "application/xml", "multipart/related"}
 
 func (g *specGen) content(forRequest bool) J {
 	r := g.r
@@ -258,7 +258,7 @@ func (g *specGen) content(forRequest bool) J {
 	if r.Chance(25) {
 		n = 2
 	}
-	unsupported := 0
+	unsupported, multipart := 0, 0
 	for i := 0; i < n; i++ {
 		mt := mediaPool[r.Intn(len(mediaPool))]
 		if _, dup := c[mt]; dup {
@@ -271,6 +271,12 @@ func (g *specGen) content(forRequest bool) J {
 				continue
 			}
 		}
+		if strings.HasPrefix(mt, "multipart/") {
+			// two multipart/* types in one operation both get the name tag Multipart (known finding, witness corpus)
+			if multipart++; multipart > 1 {
+				continue
+			}
+		}
 		g.count("media:" + mt)
 		var s J
 		switch mt {
@@ -278,7 +284,7 @@ func (g *specGen) content(forRequest bool) J {
 			s = J{"type": "string"}
 		case "application/x-www-form-urlencoded", "multipart/form-data":
 			s = J{"type": "object", "properties": J{"a": J{"type": "string"}, "n": J{"type": "integer"}}}
-		case "application/octet-stream":
+		case "application/octet-stream", "multipart/related":
 			s = J{"type": "string", "format": "binary"}
 		default:
 			if r.Chance(60) {
@@ -443,6 +449,14 @@ func (g *specGen) Generate() J {
 				params = append(params, g.parameter("path", pn))
 			}
 			pnames := map[string]bool{}
+			if len(pathParams) > 0 && r.Chance(15) {
+				// a query parameter named like the path variable: two declarations that differ only in their location
+				pn := pathParams[0]
+				k1, k2 := normKeys(pn)
+				pnames[k1], pnames[k2] = true, true
+				params = append(params, g.parameter("query", pn))
+				g.count("op:query-parameter-named-like-the-path-variable")
+			}
 			for q := 0; q < r.Intn(4); q++ {
 				loc := []string{"query", "query", "header", "cookie"}[r.Intn(4)]
 				name := []string{"limit", "offset", "sort", "X-Request-Id", "filter", "q", "session"}[r.Intn(7)]
